@@ -1,3 +1,4 @@
+import os
 import re
 
 import click
@@ -19,6 +20,9 @@ def get_css_files(path):
         for p in path.rglob("*.css"):
             # like the single-file case: a file whose whole name is ".css" has no ".css" suffix
             if p.suffix == ".css" and not p.name.endswith("_cm.css"):
+                # an output reached through a link with an input-looking name is still an output
+                if p.is_symlink() and os.path.realpath(p).endswith("_cm.css"):
+                    continue
                 yield p
 
 
